@@ -2,7 +2,7 @@
    Property theorems only. Every theorem is closed by [exact] of a lemma proved elsewhere
    (Res/NameRefProofs.v, Res/RenameProofs.v, Res/C03Facts.v). *)
 From KV Require Import Res.BuildRefs Res.FsFacts Res.CsvFacts Res.NameRefProofs Res.RenameProofs Res.RewriteProofs Res.C03Facts.
-From KV Require Import Gen.NameRefRules Gen.FieldSpecs.
+From KV Require Import Gen.NameRefRules Gen.FieldSpecs Res.NameRefRulesRef.
 
 (* ================= obligations over the tables regenerated from /repo ================= *)
 
@@ -14,6 +14,16 @@ Theorem Gen_nameref_table_wf :
   nameref_table_wf gen_gvk_order_first gen_gvk_order_last gen_nameref_raw = true.
 Proof. exact gen_nameref_table_wf. Qed.
 Print Assumptions Gen_nameref_table_wf.
+
+(* The rule table, the Gvk order and the skip lists regenerated from /repo are exactly the documented
+   ones (Res/NameRefRulesRef.v, the committed copy of the pinned source): any edited, added, deleted or
+   reordered row -- kind, group, version, path or create flag -- breaks this obligation. *)
+Theorem Gen_nameref_rules_eq_ref :
+  gen_nameref_raw = ref_nameref_raw /\
+  gen_gvk_order_first = ref_gvk_order_first /\ gen_gvk_order_last = ref_gvk_order_last /\
+  gen_prefix_skip = ref_prefix_skip /\ gen_suffix_skip = ref_suffix_skip.
+Proof. exact gen_rules_eq_ref. Qed.
+Print Assumptions Gen_nameref_rules_eq_ref.
 
 (* Every reference family the property names (ConfigMap / Secret references in pod specs, service
    accounts, volume claims, autoscaler targets, ingress backends, role bindings, StatefulSet service
